@@ -74,7 +74,14 @@ class C11(Base):
         """MANY distinct keys (9..130: several growth steps of the vector, binary search over more than a handful of
         entries), set in random / ascending / descending order, some overwritten, then all looked up"""
         n = rng.choice([9, 10, 16, 17, 31, 32, 33, 64, 65, 130])
-        keys = ["k%03d" % i for i in range(n)] if rng.random() < 0.6 else \
+        if rng.random() < 0.15:
+            # LONG keys (63, 64, 65, 127, 128, 300 bytes; ASCII and multi-byte): a per-length summary must not lose them
+            keys = [c * (ln // len(c.encode("utf-8"))) + "%d" % i for i, (c, ln) in enumerate(
+                [("a", 63), ("a", 64), ("b", 65), ("c", 127), ("d", 128), ("e", 300), ("\u65e5", 66), ("\u00e9", 64), ("z", 62)])]
+            n = len(keys)
+        else:
+            keys = None
+        keys = keys or ["k%03d" % i for i in range(n)] if rng.random() < 0.6 else keys or \
                [rng.choice(["", "a", "é", "日", "z"]) + "%d" % i for i in range(n)]
         order = list(keys)
         o = rng.random()
